@@ -37,6 +37,8 @@ def apply(kind, rules, op):
         rest_ids = ids(rest)
         new = {"id": rid, "enabled": rules[cur.index(rid)]["enabled"] if exists else True,
                "default": False, "actions": op.get("actions", ["notify"])}
+        if kind == "content":
+            new["pattern"] = op.get("pattern", "pat")      # a replacement carries the new rule's pattern
         if after is not None and before is not None:
             ia, ib = rest_ids.index(after), rest_ids.index(before)
             if ib <= ia:
